@@ -67,6 +67,24 @@ def op_header(c):
     return [0, len(tv)] + tv + opt(t[1]) + [int(t[2]), 1 if t[4] else 0] + opt(t[5]) + opt(t[6]) + [len(data) - fp.final_pos]
 
 
+def op_write_header(c):
+    """c = {magic, ts, size}: the bytes write_bytecode_file emits before the payload (payload = marshal of None)"""
+    import os, tempfile
+    from xdis.load import write_bytecode_file
+    fd, path = tempfile.mkstemp(prefix="xdis-wh-", dir="/var/tmp")
+    os.close(fd)
+    try:
+        write_bytecode_file(path, None, c["magic"], compilation_ts=c["ts"], filesize=c["size"])
+        data = open(path, "rb").read()
+    except Exception as e:
+        return errobs(e)
+    finally:
+        os.unlink(path)
+    if not data.endswith(b"N"):
+        return [1, 51]
+    return [0, len(data) - 1] + list(data[:-1])
+
+
 OPS = {k[3:]: v for k, v in list(globals().items()) if k.startswith("op_")}
 
 
